@@ -36,8 +36,8 @@ CHECKS['C05'] = dict(
     technique=TECH + ': seeded operation histories + schedule search, shadow-model oracle over the call log')
 CHECKS['C06'] = dict(
     level='fault_enumeration', ref='DESIGN.md 6 (C06)',
-    text='The fault space of one design (156 outcome patterns of at most five attempts: transient Timeout/Runtime failures, '
-         'success, three kinds of non-transient exception) is enumerated completely, serially and with two simulated '
+    text='The fault space of one design (187 outcome patterns of at most five attempts: transient Timeout/Runtime failures, '
+         'success, four kinds of non-transient exception incl. a non-timeout OSError) is enumerated completely, serially and with two simulated '
          'workers; batches of 2-8 designs and whole NSGA-II / eps-MOEA / swarm runs then sample one pattern per design '
          'under seeded schedules. The oracle derives the exact expected attempts, failed list, re-sampling, final '
          'costs and the exception the caller must see from the plan.',
